@@ -5,7 +5,7 @@ props = {json.loads(l)['id']: json.loads(l) for l in open('/verif/properties.jso
 W = "exhaustive replay-based DFS over the real plugin code under a controlled scheduler and a simulated node, iterative deviation bounding, explicit visited set"
 checks = {
  "C01": ("model_checking", "W", W, "Every history of the hash-pairing scenarios (HTLC hash x invoice hash x 1-2 parts) and of the life-cycle scenarios with <= 2 (quick) / 3 (thorough) deviations incl. crashes is executed on the real HtlcManager/ClnDatastore/PayPaymentProvider; at every Resolve the key must hash to the HTLC's own hash and a part for that hash must be complete on the simulated node; at every pay the funded HTLCs must carry the invoice's hash.", "3.C01"),
- "C02": ("model_checking", "W", W, "All histories with <= 3 (quick) / 4 (thorough) deviations of the life-cycle scenarios (1-2 HTLCs, extra part, sender retry, pay commands with <= 2 parts and every ending A1 allows, one crash of every flavour, write faults; read faults in the thorough tier) and of every stored history a restart can find; every Fail is compared with the simulated node's parts / running pay commands at that instant, and at the drained end every HTLC held at or after a completion must have been settled with the preimage.", "3.C02"),
+ "C02": ("model_checking", "W", W, "All histories with <= 3 (quick) / 4 (thorough) deviations of the life-cycle scenarios (1-2 HTLCs, extra part, sender retry, pay commands with <= 2 parts and every ending A1 allows, one crash of every flavour, write faults; read faults in the thorough tier; scheduling deviations: a younger runnable task first, a task suspended before a lock / channel operation for one event, in S-park for up to twelve) and of every stored history a restart can find; every Fail is compared with the simulated node's parts / running pay commands at that instant, and at the drained end every HTLC held at or after a completion must have been settled with the preimage.", "3.C02"),
  "C03": ("model_checking", "W", W, "Amount / declared-total / invoice-amount / policy grid (S-amt, 69 scenarios) explored with <= 1 (quick) / 2 (thorough) deviations, in the overflow-checking and the wrapping build; at every pay request the held HTLCs must cover amount + policy fee (u128 reference), maxfee <= held - amount, bolt11 verbatim, amount_msat only for amountless invoices, and no counted HTLC may be answered before the payment's fate is known.", "3.C03"),
  "C04": ("model_checking", "W", W, "Expiry / height / delta grid (S-cltv, 66 scenarios incl. block and silent-height events between any two events) with <= 2 / 3 deviations; maxdelay of every pay is compared with min expiry of the funding set - height told at funding - safety delta (floored at 0) and with the policy delta; a low-relative-expiry HTLC arriving before funding must poison the set.", "3.C04"),
  "C05": ("model_checking", "W", W, "Same exploration as C02 plus sender-retry scenarios; at every pay request no part for the hash may be pending or complete and no other pay command running; HTLCs arriving after completion must be settled from the record.", "3.C05"),
@@ -38,7 +38,7 @@ m = {
   "add_only": True,
  },
  "engines": [
-  {"name": "W", "path": "mc/src/engine_w.rs", "serves_properties": ["C01","C02","C03","C04","C05","C06","C07","C08","C09","C10","C11","C12","C13","C16"], "kind_free_text": "world: real HtlcManager+ClnDatastore+PayPaymentProvider<Rpc>+BlockWatcher over SimNode; replay DFS with deviation bounding"},
+  {"name": "W", "path": "mc/src/engine_w.rs", "serves_properties": ["C01","C02","C03","C04","C05","C06","C07","C08","C09","C10","C11","C12","C13","C16"], "kind_free_text": "world: real HtlcManager+ClnDatastore+PayPaymentProvider<Rpc>+BlockWatcher over SimNode; replay DFS with deviation bounding; environment events plus run-queue (Pick) and preemption (Park) deviations"},
   {"name": "P", "path": "mc/src/engine_p.rs", "serves_properties": ["C15","C16"], "kind_free_text": "real PayPaymentProvider<SimNode>, all interleavings"},
   {"name": "I", "path": "mc/src/engine_i.rs", "serves_properties": ["C06","C12","C18"], "kind_free_text": "bounded-exhaustive input enumeration of pure entry points against reference implementations"},
  ] + extra.get('engines', []),
